@@ -142,7 +142,9 @@ CLAIMED['C16'] = (
     'code, failureCount times, then serve once and clear the counter; the media handlers map index refusals to 404. Box headers: '
     'Mp4Atom.parse ends the scan (None) on a truncated 64-bit size, a zero 64-bit size or a non-ASCII type instead of raising or looping. '
     'UTC timing method: the option parser raises ValueError (400) for every name outside the set TimeSourceContext handles, and the '
-    'context does not raise for any name of that set (the set is read from the source on every run). Bounded '
+    'context does not raise for any name of that set (the set is read from the source on every run). Lookup decorators (uses_stream, '
+    'uses_media_file, uses_manifest, uses_multi_period_stream): the handler body runs exactly when the object the URL names exists (and the '
+    'manifest supports the mode) and then finds it in flask.g; everything else is 404 / 400 without entering the body. Bounded '
     '(labelled): DRM option names are refused or accepted without assertion.',
     'Trusted: pyvc encoding. Router, uploads, corrupt MP4 payloads beyond the box header, and the Flask handlers not named above are not covered; '
     'preconditions such as event interval >= 1 are not established by option parsing (known findings).',
